@@ -288,9 +288,7 @@ func (s *readerSys) Apply(op int, check bool) (what, sig string) {
 			if (s.pos-s.base)%2 == 1 {
 				arg = errX
 			}
-			if err := s.r.Release(arg); err != nil {
-				fail("release-error", "Release(%v) returned %v", arg, err)
-			}
+			s.r.Release(arg) // (what Release returns is not specified by any property)
 			s.base = s.pos
 			s.kept = s.kept[:0]
 		}
